@@ -102,6 +102,7 @@ type dumpStats struct {
 	waitTasks, longLogs, atTimes       int
 	runTimes, lanes, edges, dataValues int
 	progress, clean                    int
+	pendingWarnings                    int
 }
 
 // dumpState must be called with st locked.
@@ -252,6 +253,22 @@ func dumpState(st *state.State, ds *dumpStats) dump {
 	}
 	sort.Strings(msgs)
 	d["warnings.messages"] = strings.Join(msgs, "|")
+	// pending warnings are judged by snapd against the real clock: the
+	// generator keeps every threshold (first-added, last-shown+repeat-after)
+	// hours away from the real now, so the answer does not depend on when
+	// exactly it is asked
+	pend, _ := st.PendingWarnings()
+	msgs = nil
+	for _, w := range pend {
+		msgs = append(msgs, w.String())
+	}
+	sort.Strings(msgs)
+	d["warnings.pending"] = strings.Join(msgs, "|")
+	if ds != nil {
+		ds.pendingWarnings += len(msgs)
+	}
+	nw, last := st.WarningsSummary()
+	d["warnings.summary"] = fmt.Sprintf("%d %s", nw, fmtTime(last))
 	return d
 }
 
